@@ -33,12 +33,12 @@ M = "optimism.Mechanics"
 def run(ctx):
     for m in (M, "optimism.Math", "optimism.TensorMath", "optimism.ScalarRootFind", "optimism.material.J2Plastic", "optimism.material.Hardening"):
         ctx.need_module(m)
-    C12.jvp_wiring(ctx, "W1/T5-custom-jvp-wiring")
-    safe_sqrt(ctx)
-    tensorid.run_identities(ctx, "W1/T7-differentiated-helper-identities", ["inv", "detpIm1", "det", "deviator", "norm_of_deviator_squared"])
-    C17.o7(_Prefixed(ctx, "W2/"))
-    slots(ctx)
-    no_gradient_cut(ctx)
+    ctx.guard(C12.jvp_wiring, ctx, "W1/T5-custom-jvp-wiring")
+    ctx.guard(safe_sqrt, ctx)
+    ctx.guard(tensorid.run_identities, ctx, "W1/T7-differentiated-helper-identities", ["inv", "detpIm1", "det", "deviator", "norm_of_deviator_squared"])
+    ctx.guard(C17.o7, _Prefixed(ctx, "W2/"))
+    ctx.guard(slots, ctx)
+    ctx.guard(no_gradient_cut, ctx)
     ctx.trust("jax.grad / jacfwd / value_and_grad / hessian differentiate w.r.t. the positional argument given by argnums (default 0)")
 
 
